@@ -9,10 +9,11 @@ Verdicts per harness:
 """
 import os, re, subprocess, time, shutil, resource, json, signal
 
-VERIF = os.path.dirname(os.path.dirname(os.path.abspath(__file__)))
-KANI_CRATE = os.path.join(VERIF, "kani")
-BUILD = os.path.join(VERIF, ".build")
-REPO = "/repo"
+import vpaths
+VERIF = vpaths.VERIF
+KANI_CRATE = vpaths.crate("kani")
+BUILD = vpaths.BUILD
+REPO = vpaths.REPO
 
 
 def _env():
